@@ -468,6 +468,44 @@ def sec_interchange(ctx, rng, case):
     ctx.sample({"spec": spec.name, "params": _pk(p), "perm": perm, "eq": bool(a == b), "matrices_same": bool(same)})
 
 
+def sec_clifford_pow(ctx, rng, case):
+    """cirq.SingleQubitCliffordGate / cirq.CliffordGate: integer powers are matrix powers (up to phase: tableaus carry none),
+    inverse undoes, powers add"""
+    import cirq
+    from vf.refmodel import pauli as RP
+
+    if "c1" not in _S:
+        _S["c1"] = RP.single_qubit_cliffords()
+    if case % 3 and "c2" not in _S:
+        _S["c2"] = RP.two_qubit_cliffords()
+    if case % 3 == 0:
+        word, U = _S["c1"][int(rng.integers(24))]
+        g = cirq.SingleQubitCliffordGate.from_unitary(U)
+        kind = "single"
+    else:
+        word, U = _S["c2"][int(rng.integers(len(_S["c2"])))]
+        q = cirq.LineQubit.range(2)
+        ops_ = [cirq.H(q[w[1]]) if w[0] == "H" else (cirq.S(q[w[1]]) if w[0] == "S" else cirq.CZ(q[0], q[1])) for w in word]
+        g = cirq.CliffordGate.from_op_list(ops_, q)
+        kind = "two-qubit"
+    if g is None:
+        ctx.reject("from_unitary-none")
+        return
+    wit = dict(kind=kind, word=[list(w) for w in word][:30])
+    es = [int(x) for x in rng.choice(np.arange(-30, 31), size=6, replace=False)]
+    mp = lambda e: np.linalg.matrix_power(U if e >= 0 else U.conj().T, abs(e))  # noqa
+    for e in es:
+        ge = g ** e
+        ctx.check(L.phase_equal(cirq.unitary(ge), mp(e), 1e-7), "pow==eigen-definition", "C08:clifford-gate-integer-power",
+                  "unitary(g**%d) is not the %d-th matrix power of unitary(g) (up to phase)" % (e, e), exponent=e, **wit)
+        ctx.check(L.phase_equal(cirq.unitary(ge) @ cirq.unitary(g ** -e), np.eye(U.shape[0]), 1e-7), "pow==eigen-definition", "C08:clifford-gate-inverse-undoes",
+                  "g**%d followed by g**%d is not the identity" % (e, -e), exponent=e, **wit)
+    a, b = es[0], es[1]
+    ctx.check(L.phase_equal(cirq.unitary(g ** a) @ cirq.unitary(g ** b), cirq.unitary(g ** (a + b)), 1e-7), "pow==eigen-definition",
+              "C08:clifford-gate-powers-add", "g**%d g**%d != g**%d" % (a, b, a + b), a=a, b=b, **wit)
+    ctx.distinct(("clifford-pow", kind, tuple(map(tuple, word))[:40], tuple(es)), nontrivial=not L.phase_equal(U, np.eye(U.shape[0]), 1e-7))
+
+
 SECTIONS = [
     ("pow", sec_pow, 4000, 90000, 2.0),
     ("control", sec_control, 1500, 40000, 2.0),
@@ -475,5 +513,6 @@ SECTIONS = [
     ("predicates", sec_predicates, 3000, 80000, 2.0),
     ("unary", sec_unary, 2500, 60000, 2.0),
     ("interchange", sec_interchange, 2500, 60000, 1.0),
+    ("clifford_pow", sec_clifford_pow, 600, 12000, 1.0),
     ("linalg_predicates", sec_linalg_predicates, 600, 10000, 0.3),
 ]
